@@ -32,6 +32,7 @@ var (
 	vec        vector
 	pos        int
 	checkLeaks bool
+	allowedExtra int
 	loaded     bool
 )
 
@@ -114,6 +115,11 @@ func Unwind(n int)         {}
 func ConcreteUnwind(n int) {}
 func Steps(n int)          {}
 func CheckLeaks()          { checkLeaks = true }
+
+// ExpectBackgroundGoroutines tells the native leak check that the code under test legitimately leaves up to n
+// process-wide helper goroutines running for a while (e.g. a cache-expiry sleeper started once per process);
+// under the symbolic executor sleeps elapse at once, so such goroutines end and nothing needs to be excused.
+func ExpectBackgroundGoroutines(n int) { allowedExtra += n }
 func SchedSymbolic()       {}
 func MapOrderMatters()     {}
 func Yield()               { runtime.Gosched() }
@@ -129,6 +135,11 @@ func Thorough() bool { return vec.Thorough }
 
 // KnownFinding marks the input region of a recorded finding (see DESIGN §2.8). Natively false.
 func KnownFinding(id string, region bool) bool { return false }
+
+// Option switches on a named, documented simplification of the symbolic executor for this harness (a no-op
+// natively). "opaque-logql-parser": logql_parser.Parse returns an empty script instead of running the
+// participle grammar - only sound where the script is not looked at (a planner plugin replaces the chain).
+func Option(name string) {}
 
 var cleanups []func()
 
@@ -158,10 +169,10 @@ func Run(harnesses map[string]func()) {
 	}
 	if checkLeaks {
 		deadline := time.Now().Add(500 * time.Millisecond)
-		for runtime.NumGoroutine() > before && time.Now().Before(deadline) {
+		for runtime.NumGoroutine() > before+allowedExtra && time.Now().Before(deadline) {
 			time.Sleep(10 * time.Millisecond)
 		}
-		if n := runtime.NumGoroutine(); n > before {
+		if n := runtime.NumGoroutine(); n > before+allowedExtra {
 			finish(fmt.Sprintf("leak:%d goroutines still running", n-before))
 		}
 	}
